@@ -50,8 +50,10 @@ static inline void fill_pattern(void* p, size_t n, uint64_t pat)
 
 void* sim_new(size_t n, bool nothrow)
 {
-    g_af.count++;
-    if (g_af.fail_at > 0 && g_af.armed && !sim::in_parallel()) {
+    const bool internal = tl_rt > 0; // the simulator's own bookkeeping is never counted nor failed
+    if (!internal)
+        g_af.count++;
+    if (!internal && g_af.fail_at > 0 && g_af.armed && !sim::in_any_region()) { // an exception may not leave a parallel construct
         if (--g_af.fail_at == 0) {
             g_af.fired++;
             g_af.armed = false;
